@@ -35,7 +35,9 @@ def replicate (p : Node) (r : Node) : Nat → Node × Bool
     let client := if r.eng.hasDB then (r.eng.posTxid, r.eng.posChk) else (0, 0)
     let (e, ok) := session p.eng p.ident r.eng r.ident 100000 client
     if e.exit ≠ 0 then ({ r with eng := e }, true) else
-    if ok then ({ r with eng := e }, true) else replicate p { r with eng := recoverEng e } tries
+    -- the session ended with the primary believing the replica has caught up: has it?
+    if ok then ({ r with eng := e }, p.eng.posTxid = 0 || (e.hasDB && e.posTxid = p.eng.posTxid && e.posChk = p.eng.posChk))
+    else replicate p { r with eng := recoverEng e } tries
 
 def settle (c : Cl) : Cl :=
   -- lease
